@@ -13,7 +13,7 @@ RULE = (
 )
 ASSUMPTIONS = ["the 'snake' policy's documented insertion of '_' is not counted as a change of text"]
 TIMEOUT = {"quick": 400, "thorough": 900}
-MIN_NONTRIVIAL = {"quick": 80, "thorough": 800}
+MIN_NONTRIVIAL = {"quick": 50, "thorough": 800}
 REQUIRED_COUNTERS = ["token_sequences_compared", "files_changed_by_fix"]
 
 
@@ -67,7 +67,7 @@ def universe():
 
 
 def cases(tier, seed):
-    return stratified_sample(universe(), lambda c: c["stratum"], 600 if tier == "quick" else 0, seed)
+    return stratified_sample(universe(), lambda c: c["stratum"], 360 if tier == "quick" else 0, seed)
 
 
 QUOTE_START = ("'", '"', "`", "[", "$$")
